@@ -260,8 +260,7 @@ def verify_unit(unit, repo, opts):
                         vcs.append(('%s/raises-only' % pfx, pc, False, {'kind': 'raises-only', 'exc': out.exc, 'site': out.exc_site}))
                     else:
                         cond = spec[matched]
-                        if cond is not None:
-                            vcs.append(('%s/raises-only:%s' % (pfx, matched), pc, cond, {'kind': 'raises-only', 'exc': out.exc, 'site': out.exc_site}))
+                        vcs.append(('%s/raises-only:%s' % (pfx, matched), pc, True if cond is None else cond, {'kind': 'raises-only', 'exc': out.exc, 'site': out.exc_site}))
                         for name, cl in (K.post_raise(c, a, out) or {}).items():
                             vcs.append(('%s/post-raise:%s' % (pfx, name), pc, cl, {'kind': 'post-raise'}))
             if out is not None and len(res['samples']) < opts.get('crosscheck_samples', 6) and getattr(K, 'crosscheck', True):
